@@ -24,6 +24,12 @@
 (* not a multiple of 1000 has no exact millisecond instant; which neighbour is *)
 (* stored is left open (expect = "inexact", img = both neighbours).            *)
 (*                                                                             *)
+(* One tzinfo OBJECT usually serves every datetime of its zone: the "calls"    *)
+(* family enumerates SEQUENCES of readings that share one zone object and are  *)
+(* converted one after the other in one process (winter then summer, the two   *)
+(* passes through the repeated hour, ...): each is stored as wall - its own    *)
+(* offset, whatever was converted before (CallsIndependent).                   *)
+(*                                                                             *)
 (* A case = one TLC state (ty, val, norm = Den, enc, img, expect) in Codec's   *)
 (* variables; pv is fixed to 4 (the value layout is the same for every         *)
 (* version >= 3; the harness encodes at v4 and v5).  checks/c36.py evaluates   *)
@@ -251,9 +257,29 @@ CT_udt    == {UdtOf(<<TText, TInt, TTs>>), UdtOf(<<TDate, TTime>>), UdtOf(<<TTs,
 CT_nest   == {ListOf(ListOf(TTs)), ListOf(TupleOf(<<TInt, TTs>>)), MapOf(TText, ListOf(TTs)), MapOf(TDate, SetOf(TTime)),
               SetOf(TupleOf(<<TDate, TInt>>)), ListOf(UdtOf(<<TText, TTs>>)), TupleOf(<<ListOf(TDate), MapOf(TInt, TTs)>>),
               MapOf(TText, MapOf(TInt, TDate)), ListOf(SetOf(TDate))}
+\* ---- one time zone OBJECT, several conversions ("calls")
+\* A program converts datetimes one after the other, and the datetimes of one zone share ONE tzinfo object (zoneinfo,
+\* dateutil): the object answers with the offset in force at the datetime it is asked about.  A case of this family is
+\* a sequence of readings of one zone object, converted in this order in one process.  Each reading denotes
+\* wall - ITS OWN offset, whatever was converted before.  A reading here also carries fold (PEP 495): 1 for the second
+\* pass through a wall-clock time that occurs twice (the end of daylight saving time).
+CallsOf == <<"calls", TTs>>
+ZR(ymd, hms, us, at1970, now, fold) == [ymd |-> ymd, hms |-> hms, us |-> us, zone |-> <<at1970, now>>, fold |-> fold]
+SharedZones ==
+    {{ZR(<<2026, 1, 15>>, <<12, 0, 0>>, 0, 60, 60, 0), ZR(<<2026, 7, 1>>, <<12, 0, 0>>, 0, 60, 120, 0),           \* +01:00 / +02:00 in summer
+      ZR(<<2026, 10, 25>>, <<2, 30, 0>>, 0, 60, 120, 0), ZR(<<2026, 10, 25>>, <<2, 30, 0>>, 123000, 60, 60, 1)},
+     {ZR(<<2026, 1, 15>>, <<12, 0, 0>>, 1000, -300, -300, 0), ZR(<<2026, 7, 1>>, <<23, 59, 59>>, 999000, -300, -240, 0)},   \* -05:00 / -04:00
+     {ZR(<<2026, 1, 15>>, <<12, 0, 0>>, 0, 330, 330, 0), ZR(<<2026, 7, 1>>, <<12, 0, 0>>, 0, 330, 330, 0)}}        \* no change: +05:30
+    \cup (IF CVRich THEN {{ZR(<<2026, 1, 15>>, <<0, 0, 1>>, 0, 660, 660, 0), ZR(<<2026, 7, 1>>, <<0, 0, 1>>, 0, 660, 600, 0),      \* southern: summer in January
+                            ZR(<<1969, 7, 1>>, <<12, 0, 0>>, 0, 660, 600, 0)},
+                           {ZR(<<2011, 12, 29>>, <<12, 0, 0>>, 0, -660, -600, 0), ZR(<<2011, 12, 31>>, <<12, 0, 0>>, 0, -660, 840, 0)}}  \* a zone that crossed the date line
+         ELSE {})
+CallPairs == UNION {{pq \in Z \X Z : pq[1] # pq[2]} : Z \in SharedZones}
+CallSeqs == CallPairs \cup (IF CVRich THEN {<<pq[1], pq[2], pq[1]>> : pq \in CallPairs} ELSE {})
+
 CPick(f, S) == IF f \in CVFamilies THEN S ELSE {}
 CVTypes == CPick("scalar", CT_scalar) \cup CPick("list", CT_list) \cup CPick("set", CT_set) \cup CPick("map", CT_map)
-           \cup CPick("tuple", CT_tuple) \cup CPick("udt", CT_udt) \cup CPick("nest", CT_nest)
+           \cup CPick("tuple", CT_tuple) \cup CPick("udt", CT_udt) \cup CPick("nest", CT_nest) \cup CPick("calls", {CallsOf})
 
 -----------------------------------------------------------------------------
 \* Codec's variables: ty = column type, val = Python value, norm = its denotation, enc = the bytes, img = the acceptable
@@ -265,7 +291,7 @@ IsTsLeaf(t, v) == IsScalar(t) /\ Kind(t) = "timestamp"
 \* the many readings of the timestamp scalar are split over the seeds by a cheap function of their fields
 PartOf(t, v) == IF IsTsLeaf(t, v) /\ v[1] # "date" THEN (v[2].us + v[2].hms[1] + v[2].ymd[1]) % Parts ELSE 0
 
-CVCase == /\ expect = "seed"
+CVCase == /\ expect = "seed" /\ ty # CallsOf
           /\ \E v \in CVals(ty, 0) :
                /\ PartOf(ty, v) = pv
                /\ LET d == Den(ty, v)
@@ -276,7 +302,14 @@ CVCase == /\ expect = "seed"
                   /\ img' = IF inexact THEN {e, TsEnc(NextMs(d))} ELSE {e}
                   /\ expect' = IF outside THEN "open" ELSE IF inexact THEN "inexact" ELSE "ok"
                   /\ UNCHANGED ty
-CVNext == CVCase
+\* val = the readings in the order they are converted, norm = their instants, enc = their 8-byte encodings one after the other
+CallsCase == /\ expect = "seed" /\ ty = CallsOf
+             /\ \E s \in CallSeqs :
+                  LET d == [k \in 1..Len(s) |-> InstantOf(s[k])]
+                      e == Cat([k \in 1..Len(s) |-> TsEnc(d[k])]) IN
+                  /\ val' = s /\ norm' = d /\ enc' = e /\ img' = {e} /\ pv' = PV /\ expect' = "ok"
+                  /\ UNCHANGED ty
+CVNext == CVCase \/ CallsCase
 CVSpec == CVInit /\ [][CVNext]_vars
 
 -----------------------------------------------------------------------------
@@ -314,7 +347,27 @@ WideInts ==
 Headers ==
     Judged /\ ~IsScalar(ty) /\ Kind(ty) \in {"list", "set", "map"} => RdInt(enc, 1).v = Len(val)
 
+\* conversions do not influence each other: the k-th 8 bytes are the instant of the k-th reading with ITS offset - the same
+\* bytes the reading has when it is converted alone; the zone object is a function of (wall clock, fold); the two passes
+\* through a repeated wall-clock time are apart by the difference of their offsets
+Piece(k) == SubSeq(enc, 8 * k - 7, 8 * k)
+Alone(p) == Reading(p.ymd, p.hms, p.us, p.zone)
+SecondsOf(i) == i.days * 86400 + i.sod                     \* near the present: fits
+CallsIndependent ==
+    Judged /\ ty = CallsOf =>
+        /\ Len(enc) = 8 * Len(val)
+        /\ \A k \in 1..Len(val) : /\ TsDec(Piece(k)) = norm[k] /\ Piece(k) = TsEnc(InstantOf(Alone(val[k])))
+                                   /\ val[k].zone[1] = val[1].zone[1] /\ ExactMs(val[k])
+        /\ \A j, k \in 1..Len(val) :
+              /\ (val[j].ymd = val[k].ymd /\ val[j].hms = val[k].hms /\ val[j].fold = val[k].fold => val[j].zone = val[k].zone)
+              /\ (val[j].ymd = val[k].ymd /\ val[j].hms = val[k].hms /\ norm[j].days > 0 /\ norm[j].days < 24000 =>
+                     SecondsOf(norm[k]) - SecondsOf(norm[j]) = 60 * (val[j].zone[2] - val[k].zone[2]))
+
 \* ================================================================ vacuity witnesses (TLC must VIOLATE each; one state each)
+Witness_WinterThenSummer == ~(Judged /\ ty = CallsOf /\ val = <<ZR(<<2026, 1, 15>>, <<12, 0, 0>>, 0, 60, 60, 0), ZR(<<2026, 7, 1>>, <<12, 0, 0>>, 0, 60, 120, 0)>>
+                              /\ Piece(2) = TsEnc([days |-> Cal!DaysFromCivil(2026, 7, 1), sod |-> 36000, ms |-> 0]))
+Witness_RepeatedHour     == ~(Judged /\ ty = CallsOf /\ val = <<ZR(<<2026, 10, 25>>, <<2, 30, 0>>, 0, 60, 120, 0), ZR(<<2026, 10, 25>>, <<2, 30, 0>>, 123000, 60, 60, 1)>>
+                              /\ norm[2].sod - norm[1].sod = 3600)
 TsCase(form) == Judged /\ ty = TTs /\ val[1] = form
 Witness_SummerTime  == ~(TsCase("aware") /\ val[2] = Reading(<<2026, 7, 1>>, <<12, 0, 0>>, 0, <<60, 120>>) /\ norm.sod = 36000)
 Witness_SameWallTwoOffsets == ~(TsCase("aware") /\ val[2] = Reading(<<2026, 10, 25>>, <<2, 30, 0>>, 0, <<60, 60>>) /\ norm.sod = 5400)
